@@ -93,11 +93,57 @@ Proof.
     now apply same_map_true.
 Qed.
 
+Lemma nth_error_upd_nth_ne {A} i j (x : A) l : i <> j -> nth_error (upd_nth i x l) j = nth_error l j.
+Proof.
+  revert i j. induction l; intros i j NE; destruct i, j; simpl; auto; try congruence.
+Qed.
+
+(* ---- c_i.update(c_j) ------------------------------------------------------------------ *)
+Lemma getitem_present c m k :
+  1 <= c_max c -> Inv c m -> In k (keys (ring m)) ->
+  exists m' v, getitem c m k = (m', Ok v) /\ Inv c m'
+    /\ r_lookup c (abs m) k = (abs m', Some v)
+    /\ calls m' = calls m
+    /\ (forall k', In k' (keys (ring m')) <-> In k' (keys (ring m))).
+Proof.
+  intros Hmax I Hk. pose proof I as [NR NS SAME LEN CAP SOFT].
+  assert (G : exists v, d_get (ring m) k = Some v).
+  { apply d_mem_iff in Hk. unfold d_mem in Hk. destruct (d_get (ring m) k); [eauto|discriminate]. }
+  destruct G as [v G].
+  destruct (getitem_sim c m k Hmax I) as [m' [ov [E [I' [L _]]]]].
+  unfold r_lookup in L. simpl in L. rewrite G in L. inversion L as [[A1 A2 A3 A4 A5 A6]]. subst ov.
+  exists m', v. split; [exact E|]. split; [exact I'|]. split.
+  { unfold r_lookup. simpl. rewrite G. exact L. }
+  split; [congruence|].
+  intro k'. rewrite <- A1. destruct (c_cls c); [tauto|].
+  rewrite keys_app, in_app_iff, in_keys_del by assumption. simpl.
+  destruct (Nat.eq_dec k' k) as [->|NE]; [tauto|]. split; [intros [[_ H]|[H|[]]]; [assumption|congruence]|tauto].
+Qed.
+
+Lemma upd_from_sim c ks : forall mi mj,
+  1 <= c_max c -> Inv c mi -> Inv c mj -> Forall (fun k => In k (keys (ring mj))) ks ->
+  exists mi' mj', upd_from c mi mj ks = (mi', mj', Ok tt) /\ Inv c mi' /\ Inv c mj'
+    /\ r_upd_from c (abs mi) (abs mj) ks = (abs mi', abs mj', Ok tt)
+    /\ calls mi' = calls mi.
+Proof.
+  induction ks as [|k rest IH]; intros mi mj Hmax Ii Ij F; simpl.
+  - exists mi, mj. split; [reflexivity|]. split; [assumption|]. split; [assumption|]. split; reflexivity.
+  - inversion F as [|? ? Hk Fr]; subst.
+    destruct (getitem_present c mj k Hmax Ij Hk) as [mj1 [v [Eg [Ij1 [L [_ KS]]]]]].
+    rewrite Eg, L.
+    destruct (setitem_sim c mi k v Hmax Ii) as [mi1 [Es [Ii1 [A [C _]]]]]. rewrite Es.
+    assert (Fr' : Forall (fun k0 => In k0 (keys (ring mj1))) rest).
+    { eapply Forall_impl; [|exact Fr]. intros a Ha. now apply KS. }
+    destruct (IH mi1 mj1 Hmax Ii1 Ij1 Fr') as [mi' [mj' [E [I1 [I2 [R C']]]]]].
+    exists mi', mj'. rewrite E. rewrite <- A, R.
+    split; [reflexivity|]. split; [assumption|]. split; [assumption|]. split; [reflexivity|congruence].
+Qed.
+
 (* ---- one heap step -------------------------------------------------------------- *)
 Lemma hstep_inv c h o :
   1 <= c_max c -> Forall (Inv c) h -> Forall (Inv c) (fst (fst (hstep c h o))).
 Proof.
-  intros Hmax F. destruct o as [i o1|i|i j]; simpl.
+  intros Hmax F. destruct o as [i o1|i|i j|i j]; simpl.
   - destruct (nth_error h i) as [m|] eqn:N; [|assumption].
     destruct (step1_sim c m o1 Hmax (nth_error_Forall _ _ _ _ F N)) as [m' [out [E [I' _]]]].
     rewrite E. simpl. now apply upd_nth_Forall.
@@ -105,6 +151,14 @@ Proof.
     destruct (setitems_sim c (ring m) empty_cache Hmax (inv_empty c)) as [m' [E [I' _]]].
     unfold copy_cache. rewrite E. simpl. apply Forall_app. split; [assumption|]. now constructor.
   - destruct (nth_error h i); [destruct (nth_error h j)|]; assumption.
+  - destruct (nth_error h i) as [mi|] eqn:Ni; [|assumption].
+    destruct (nth_error h j) as [mj|] eqn:Nj; [|assumption].
+    destruct (Nat.eqb_spec i j); [assumption|].
+    pose proof (nth_error_Forall _ _ _ _ F Ni) as Ii. pose proof (nth_error_Forall _ _ _ _ F Nj) as Ij.
+    assert (FK : Forall (fun k => In k (keys (ring mj))) (d_keys (store mj))).
+    { apply Forall_forall. intros k Hk. apply d_mem_iff. rewrite <- (inv_mem c mj k Ij). now apply d_mem_iff. }
+    destruct (upd_from_sim c _ mi mj Hmax Ii Ij FK) as [mi' [mj' [E [I1 [I2 _]]]]].
+    rewrite E. simpl. apply upd_nth_Forall; [apply upd_nth_Forall|]; assumption.
 Qed.
 
 Lemma hobserve_sim c h o ob :
@@ -112,7 +166,7 @@ Lemma hobserve_sim c h o ob :
   obs_agree (snd (hobserve c h o)) ob = true ->
   spec_ok_step c (map abs h) o ob = Some (map abs (fst (hobserve c h o))).
 Proof.
-  intros Hmax F VAL AG. unfold hobserve in *. destruct o as [i o1|i|i j]; simpl in *.
+  intros Hmax F VAL AG. unfold hobserve in *. destruct o as [i o1|i|i j|i j]; simpl in *.
   - (* On i o1 *)
     apply Nat.ltb_lt in VAL. destruct (nth_error h i) as [m|] eqn:N;
       [|apply nth_error_None in N; lia].
@@ -157,6 +211,31 @@ Proof.
     rewrite EB, res_eqb_refl. simpl.
     change (mkR (ring m) (hit m) (miss m) (soft m) (calls m)) with (abs m).
     now rewrite (view_ok_model c m (calls m) [] _ ob I eq_refl AG).
+  - (* UpdateFrom i j *)
+    apply andb_true_iff in VAL as [V1 V2]. apply Nat.ltb_lt in V1, V2.
+    destruct (nth_error h i) as [mi|] eqn:Ni; [|apply nth_error_None in Ni; lia].
+    destruct (nth_error h j) as [mj|] eqn:Nj; [|apply nth_error_None in Nj; lia].
+    pose proof (nth_error_Forall _ _ _ _ F Ni) as Ii. pose proof (nth_error_Forall _ _ _ _ F Nj) as Ij.
+    pose proof Ij as [NRj NSj SAMEj LENj CAPj SOFTj].
+    rewrite !nth_error_map', Ni, Nj. simpl.
+    assert (SK : same_keys (d_keys (store mj)) (ring mj) = true) by now apply same_keys_true.
+    destruct (Nat.eqb_spec i j) as [EQ|NE].
+    + simpl in AG. rewrite (nth_error_nth' h i mi empty_cache Ni) in AG.
+      pose proof (obs_agree_fields _ _ AG) as [EO _]. simpl in EO. rewrite EO. rewrite SK.
+      change (mkR (ring mi) (hit mi) (miss mi) (soft mi) (calls mi)) with (abs mi).
+      now rewrite (view_ok_model c mi (calls mi) [] _ ob Ii eq_refl AG).
+    + assert (FK : Forall (fun k => In k (keys (ring mj))) (d_keys (store mj))).
+      { apply Forall_forall. intros k Hk. apply d_mem_iff. rewrite <- (inv_mem c mj k Ij). now apply d_mem_iff. }
+      destruct (upd_from_sim c _ mi mj Hmax Ii Ij FK) as [mi' [mj' [E [I1 [I2 [R C]]]]]].
+      rewrite E in *. simpl in *.
+      assert (Ni' : nth_error (upd_nth j mj' h) i = Some mi) by (rewrite nth_error_upd_nth_ne; auto).
+      rewrite (nth_upd_nth i mi' empty_cache _ mi Ni') in AG.
+      pose proof (obs_agree_fields _ _ AG) as [EO _]. simpl in EO. rewrite EO. rewrite SK.
+      change (mkR (ring mi) (hit mi) (miss mi) (soft mi) (calls mi)) with (abs mi).
+      change (mkR (ring mj) (hit mj) (miss mj) (soft mj) (calls mj)) with (abs mj).
+      rewrite R. change (r_calls (abs mi)) with (calls mi).
+      rewrite (view_ok_model c mi' (calls mi) [] _ ob I1 C AG).
+      now rewrite !upd_nth_map.
 Qed.
 
 (* ---- whole histories --------------------------------------------------------------- *)
